@@ -720,6 +720,12 @@ class RealWorld:
         self.pipes = []
         for _ in range(nfd):
             r, w = os.pipe()
+            if not self.pipes:
+                # descriptor 0 is a descriptor like any other (this runs in the forked child, whose stdin is unused):
+                # the first watched pipe is descriptor number 0, the smallest handle a loop can hand out
+                os.dup2(r, 0)
+                os.close(r)
+                r = 0
             os.set_blocking(r, False)
             os.set_blocking(w, False)
             self.pipes.append((r, w))
@@ -1103,6 +1109,27 @@ def _classify(case):
 
 
 
+def _handover_sweep():
+    """two (three) descriptors readable in the same batch; the callback served first removes a sibling or itself and
+    possibly registers a new watch on the freed descriptor (hand-over), with or without fresh data for it"""
+    def scripts(me, other):
+        return [
+            [],
+            [[0, ["rm_watch", 0, 0]]],
+            [[0, ["rm_watch", 0, 0]], [0, ["watch", other, []]]],
+            [[0, ["rm_watch", 0, 0]], [0, ["watch", other, []]], [0, ["write", other, 1]]],
+            [[0, ["rm_watch", 0, 1]], [0, ["watch", me, []]]],
+            [[0, ["rm_watch", 0, 1]], [0, ["watch", me, []]], [0, ["write", me, 1]]],
+            [[0, ["rm_watch", 0, 0]], [0, ["watch", other, [[0, ["rm_watch", 0, 1]]]]], [0, ["write", other, 2]]],
+        ]
+    for s0 in scripts(0, 1):
+        for s1 in scripts(1, 0):
+            for order in (0, 1):
+                for extra in ([], [["watch", 2, []], ["write", 2, 1]]):
+                    yield {"setup": [["watch", 0, s0], ["watch", 1, s1], *extra, ["write", 0, 2], ["write", 1, 2]],
+                           "idle_edit": False, "idle_raise": False, "ready": [], "order": order}
+
+
 def _alarmq_sweep(nmax):
     """every registration order of n distinct due times (n <= nmax) x one removal before run()"""
     for n in range(2, nmax + 1):
@@ -1129,6 +1156,9 @@ def shard(ctx):
             ctx.given("real", _case(name), ctx.scale(7, 125), nontrivial=_nontrivial, classify=_classify)
     if ctx.failure is None:
         ctx.given("virtual", _case(None), ctx.scale(500, 15000), nontrivial=_nontrivial, classify=_classify)
+    if ctx.failure is None:
+        ctx.sweep("virtual", _handover_sweep(), nontrivial=lambda c: True, classify=lambda c: ["virtual:handover-sweep"],
+                  exhaustive_name="watch hand-over inside one ready batch (7 x 7 scripts x 2 orders x 2)")
     if ctx.failure is None:
         ctx.sweep("alarmq", _alarmq_sweep(ctx.scale(7, 8)), nontrivial=lambda c: len(c["dues"]) >= 4,
                   exhaustive_name="alarm queue: every registration order of <=7 (8) due times x one removal")
